@@ -8,7 +8,7 @@ from .. import common, e2
 from ..cworld import ClientWorld
 from ..par import pmap
 from engineio import packet as eio_packet
-from .c19 import SCENARIOS, judge as judge_threads
+from .c19 import SCENARIOS, NSP, judge as judge_threads
 
 
 def scenario_for(name):
@@ -40,7 +40,8 @@ def scenario_for(name):
                     await loop.point('server-accepts')
                     if w.eio.state != 'connected':
                         return
-                    await sc.client._handle_eio_message('0{"sid":"S%d"}' % n)
+                    await sc.client._handle_eio_message('0%s{"sid":"S%d"}' % (
+                        NSP(opts), n))
                     if n >= 2 and opts.get('greeting'):
                         await deliver_ref[0](opts['greeting'])
                     if n >= 2:
@@ -49,7 +50,8 @@ def scenario_for(name):
         w.send_hook = send_hook
         if opts.get('reconnect_fails'):
             w.connect_script = ['ok', 'fail']
-        r = w.run(sc.connect, 'http://h')
+        r = w.run(sc.connect, 'http://h',
+                  namespace=opts.get('namespace', '/'))
         if r[0] != 'ok':
             raise common.HarnessError(f'AsyncSimpleClient connect: {r}')
         loop.setup = False
@@ -72,7 +74,7 @@ def scenario_for(name):
 
         async def deliver(ev):
             st['arrived'].append(ev)
-            await sc.client._handle_eio_message('2["%s",1]' % ev)
+            await sc.client._handle_eio_message('2%s["%s",1]' % (NSP(opts), ev))
             st['completed'] += 1
 
         deliver_ref[0] = deliver
